@@ -198,6 +198,16 @@ def run_case(ck, desc):
     tab = tables.multiphase_from_desc(desc["table"])
     P = np.asarray(tab["pressure"], dtype=float)
     cols = {k: np.asarray(tab[k], dtype=float) for k in tables.MP_COLS}
+    if int(phi * 1e4) % 5 == 0 and len(P) >= 6:
+        # a lab point inserted a quarter of a psi above an existing row (rows closer together than the
+        # half-psi stencil of the storage derivative), every column interpolated linearly
+        k_ = len(P) // 2
+        p_new = P[k_] + 0.25
+        if p_new < P[k_ + 1]:
+            P_old = P
+            P = np.insert(P_old, k_ + 1, p_new)
+            cols = {c_: (P if c_ == "pressure" else np.insert(v_, k_ + 1, np.interp(p_new, P_old, v_))) for c_, v_ in cols.items()}
+            ck.count("tables_with_rows_a_quarter_psi_apart")
     params = RelPermParams(*desc["relperm"])
     df_kr = relative_permeabilities_twophase(params, Sw)
     full_tab = pd.DataFrame(cols)
